@@ -5,7 +5,7 @@ namespace Py
 
 inductive Exc
   | valueError | indexError | typeError | hpackDecodingError | invalidTableIndex | invalidTableSizeError
-  | oversizedHeaderListError | unicodeDecodeError | zeroDivisionError | nonTermination
+  | oversizedHeaderListError | unicodeDecodeError | zeroDivisionError | keyError | attributeError | outsideModel | nonTermination
 deriving Repr, DecidableEq
 
 abbrev R := Except Exc
@@ -186,5 +186,114 @@ abbrev Header := List UInt8 × List UInt8 × Bool
 /-- `b.decode('utf-8')`: `str` values are represented by their UTF-8 encoding; decoding is validation -/
 def utf8Decode (valid : List UInt8 → Bool) (b : List UInt8) : R (List UInt8) :=
   if valid b then .ok b else .error .unicodeDecodeError
+
+/-! ### dynamically typed values at the `Encoder.encode` boundary
+
+`Encoder.encode` takes whatever the application passes. The values below are the part of that space the translated
+source is given a meaning on: names and values that are `bytes`, `str` or any other object (known by what `str()`
+returns for it and by its truth value), headers that are plain tuples of any length or `HeaderTuple` instances (which
+carry `indexable`), and a header collection that is a `dict` (its items in insertion order) or any other iterable of
+headers (a list and a one-shot iterator are consumed identically by a `for` loop). A `str` is a Lean `String` (a
+sequence of Unicode scalar values; lone surrogates, for which `.encode('utf-8')` raises, are outside the model). -/
+
+inductive Ty | bytes | str | other
+deriving Repr, DecidableEq
+
+inductive Obj
+  | bytes (b : List UInt8)
+  | str (s : String)
+  | other (repr : String) (truth : Bool)
+deriving Repr, DecidableEq
+
+/-- `type(x)` as far as `is bytes` / `is str` can tell (exact types: a subclass instance is `other`) -/
+def Obj.typeOf : Obj → Ty
+  | .bytes _ => .bytes
+  | .str _ => .str
+  | .other _ _ => .other
+
+/-- `str(x)`; `str()` of a `bytes` object (its repr) is not modelled -/
+def Obj.strOf : Obj → R Obj
+  | .str s => .ok (.str s)
+  | .other r _ => .ok (.str r)
+  | .bytes _ => .error .outsideModel
+
+/-- `x.encode("utf-8")`: only `str` has the method -/
+def Obj.encodeUtf8 : Obj → R (List UInt8)
+  | .str s => .ok s.toUTF8.data.toList
+  | _ => .error .attributeError
+
+/-- a value declared `bytes` by the source's annotations: the translator inserts this checked cast -/
+def Obj.asBytes : Obj → R (List UInt8)
+  | .bytes b => .ok b
+  | _ => .error .typeError
+
+/-- truth value (`if x`, `not x`) -/
+def Obj.truthy : Obj → Bool
+  | .bytes b => !b.isEmpty
+  | .str s => !s.isEmpty
+  | .other _ t => t
+
+/-- `b.startswith(p)` on bytes -/
+def startsWith (b p : List UInt8) : Bool := p.isPrefixOf b
+
+/-- one header as passed: a plain tuple of any length, or a `HeaderTuple` / `NeverIndexedHeaderTuple` (two items) -/
+inductive Hdr
+  | tuple (items : List Obj)
+  | headerTuple (name value : Obj) (indexable : Bool)
+deriving Repr, DecidableEq
+
+def Hdr.isHeaderTuple : Hdr → Bool
+  | .headerTuple _ _ _ => true
+  | .tuple _ => false
+
+def Hdr.items : Hdr → List Obj
+  | .tuple xs => xs
+  | .headerTuple n v _ => [n, v]
+
+/-- `len(header)` -/
+def Hdr.len (h : Hdr) : Int := (h.items.length : Int)
+/-- `header[i]` -/
+def Hdr.get (h : Hdr) (i : Int) : R Obj := seqGet h.items i
+/-- `header.indexable`: a plain tuple has no such attribute -/
+def Hdr.indexable : Hdr → R Bool
+  | .headerTuple _ _ ix => .ok ix
+  | .tuple _ => .error .attributeError
+
+/-- the `headers` argument: a `dict` (or subclass) given by its items in insertion order, or any other iterable -/
+inductive Headers
+  | dict (items : List (Obj × Obj))
+  | iterable (items : List Hdr)
+deriving Repr
+
+/-- `isinstance(x, dict)` -/
+def Headers.isDict : Headers → Bool
+  | .dict _ => true
+  | .iterable _ => false
+
+/-- `d.keys()` -/
+def Headers.keys : Headers → R (List Obj)
+  | .dict items => .ok (items.map (·.1))
+  | .iterable _ => .error .attributeError
+
+/-- `d[key]`: the first item with an equal key (a dict holds a key once) -/
+def Headers.getItem : Headers → Obj → R Obj
+  | .dict items, key => match items.find? (fun kv => kv.1 = key) with
+    | some kv => .ok kv.2
+    | none => .error .keyError
+  | .iterable _, _ => .error .typeError
+
+/-- `iter(headers)` consumed by a `for` loop. Iterating a dict would yield its keys as headers; `Encoder.encode` does this
+only for non-dicts, and the other case is not given a meaning. -/
+def Headers.iter : Headers → R (List Hdr)
+  | .iterable items => .ok items
+  | .dict _ => .error .outsideModel
+
+/-- `sorted(xs, key=…)` for a Boolean key (`False < True`), the keys having been computed first, in order: stable -/
+def sortedByBool {α} (xs : List α) (keys : List Bool) : List α :=
+  let z := xs.zip keys
+  (z.filter (fun p => !p.2)).map (·.1) ++ (z.filter (fun p => p.2)).map (·.1)
+
+/-- `b"".join(parts)` -/
+def joinBytes (parts : List (List UInt8)) : List UInt8 := parts.flatten
 
 end Py
